@@ -153,6 +153,13 @@ fn c12_pop_d1_k2() {
     pop_step::<1, 2>();
 }
 
+// @harness c12_pop_d2_k3 prop=C12 tier=quick btree=no bound="depth 2, 3 pops (underflow on a non-empty stack)"
+#[kani::proof]
+#[kani::unwind(8)]
+fn c12_pop_d2_k3() {
+    pop_step::<2, 3>();
+}
+
 // @harness c12_pop_d3_k2 prop=C12 tier=quick btree=no bound="depth 3, 2 pops"
 #[kani::proof]
 #[kani::unwind(8)]
@@ -217,6 +224,20 @@ fn flip_step<const D: usize, const K: usize>() {
 #[kani::unwind(8)]
 fn c12_flip_d0_k1() {
     flip_step::<0, 1>();
+}
+
+// @harness c12_flip_d1_k2 prop=C12 tier=quick btree=no bound="depth 1, 2 flips (underflow on a NON-empty stack)"
+#[kani::proof]
+#[kani::unwind(8)]
+fn c12_flip_d1_k2() {
+    flip_step::<1, 2>();
+}
+
+// @harness c12_flip_d2_k3 prop=C12 tier=quick btree=no bound="depth 2, 3 flips (underflow on a non-empty stack)"
+#[kani::proof]
+#[kani::unwind(8)]
+fn c12_flip_d2_k3() {
+    flip_step::<2, 3>();
 }
 
 // @harness c12_flip_d2_k2 prop=C12 tier=quick btree=no bound="depth 2, 2 flips"
